@@ -314,6 +314,34 @@ def check_emission(P, R):
             return (True, neg_)
         return (False, False)
 
+    # shape-independent first: whatever (name, value) pair is put into the list, its value is text transcoded utf8 -> latin1 (or a constant of the package)
+    pair_sites = []
+    for c in walk_shallow(f.node):
+        if isinstance(c, ast.Call) and call_attr(c) in ('append', 'extend', 'insert') and c.args:
+            a = c.args[-1]
+            if isinstance(a, ast.Tuple) and len(a.elts) == 2:
+                pair_sites.append((c, a, None))
+            elif isinstance(a, (ast.GeneratorExp, ast.ListComp)) and isinstance(a.elt, ast.Tuple) and len(a.elt.elts) == 2:
+                pair_sites.append((c, a.elt, a))
+        elif isinstance(c, ast.ListComp) and isinstance(c.elt, ast.Tuple) and len(c.elt.elts) == 2 and not isinstance(getattr(c, '_p', None), ast.Call):
+            pair_sites.append((c, c.elt, c))
+    for (site, pair, comp) in pair_sites:
+        at_ = g.node_of_stmt(site)[0]
+        v = pair.elts[1]
+        vx = T.expand(f, v, at_) if comp is None else v
+        if comp is not None and isinstance(vx, ast.Name):
+            # a comprehension variable that iterates over values prepared (transcoded) before
+            for gen_ in comp.generators:
+                if isinstance(gen_.target, ast.Name) and gen_.target.id == vx.id:
+                    it_ = T.expand(f, gen_.iter, at_)
+                    if isinstance(it_, (ast.ListComp, ast.GeneratorExp)) and transcode_of(it_.elt) is not None:
+                        vx = it_.elt
+        okv = transcode_of(vx) is not None or (isinstance(vx, ast.Constant) and isinstance(vx.value, str)) or \
+            (isinstance(vx, ast.Attribute) and vx.attr == 'default_content_type')
+        R.ob('C14.d', f, site, okv, text=f'pair `({short(pair.elts[0], 20)}, {short(v, 40)})`: value transcoded utf8 -> latin1', detail='' if okv else
+             f'the pair `({short(pair.elts[0], 20)}, {short(v, 40)})` enters the header list with the stored text as it is: a value with a character above U+00FF (and any '
+             f'non-ASCII text meant to be read back as UTF-8) is not a Latin-1 native string - start_response gets an ill-formed header list',
+             why='every emitted header value is a native string encodable as Latin-1 that decodes back to the original text as UTF-8', key_extra='pair-transcoded')
     emitted = []      # (node for the report, value expr, at cfg node, ok_multi, where)
     comps = [n for n in walk_shallow(f.node) if isinstance(n, ast.ListComp) and isinstance(n.elt, ast.Tuple) and len(n.elt.elts) == 2]
     for c in comps:
@@ -562,3 +590,25 @@ def check_setters_always_store(P, R, rid, why):
              f'HeaderDict.{name} can return without storing anything (a test of the value\'s truth before the store?): the integer 0 is dropped, so the '
              f'`Content-Length: 0` computed for an empty file never reaches the response', why=why, key_extra=f'always-store:{name}')
     R.require(n >= 2, f'{n} single-value setters of HeaderDict found (3 on the pinned tree)')
+
+
+def check_ctor_stores_every_header(P, R, rid, why):
+    """BaseResponse.__init__ hands every header it is given to the header dictionary - whatever the value (an empty Allow, Content-Length 0)"""
+    bi = P.func(f'{RS}:BaseResponse.__init__')
+    g = bi.cfg
+    fors = [n for n in walk_shallow(bi.node) if isinstance(n, ast.For)]
+    n = 0
+    for lp in fors:
+        apps = [g.node_of_stmt(c)[0] for c in T.calls_to(bi, 'self.headers.append') if T._inside(c, lp.body)]
+        stores = apps + [nd for nd in g.nodes if nd.kind == 'stmt' and isinstance(nd.ast, ast.Assign) and T._inside(nd.ast, lp.body) and any(
+            isinstance(t, ast.Subscript) and (dotted(t.value) or '').startswith('self.headers') for t in nd.ast.targets)]
+        if not stores:
+            continue
+        n += 1
+        head = T.loop_head(g, lp)
+        first = T.succ_by_label(head, 'iter')
+        ok = all(s_ in stores or g.must_pass(s_, head, stores) for s_ in first)
+        R.ob(rid, bi, lp, ok, text=f'for {short(lp.target)} in {short(lp.iter, 40)}: every header is stored', detail='' if ok else
+             'a pass of the loop can skip the store (a test of the value before it?): a header given with a falsy value - `Allow=""` of a 405 for a route whose methods were '
+             'all removed, `Content_Length=0` - is dropped instead of being sent', why=why, key_extra='ctor-always-store')
+    R.require(n >= 1, 'BaseResponse.__init__: header loops not found')
